@@ -659,7 +659,12 @@ class Server(BaseComponent):
             if nbytes < len(data):
                 self._buffers[sock].appendleft(data[nbytes:])
         except OSError as e:
-            if e.args[0] not in (EINTR, EWOULDBLOCK, ENOBUFS):
+            transient = e.args[0] in (EINTR, EWOULDBLOCK, ENOBUFS) or (
+                # (the TLS layer says "want write" where a plain socket says
+                # EAGAIN: nothing was sent, try again later)
+                isinstance(e, SSLError) and e.args[0] in (SSL_ERROR_WANT_READ, SSL_ERROR_WANT_WRITE)
+            )
+            if not transient:
                 self.fire(error(sock, e))
                 # the peer takes no more output, but what it sent before it
                 # went away has still to be delivered: give up the write side
